@@ -108,12 +108,13 @@ def rule_apply_window(chk: Check, model: Model, rid: str):
     chk.used(fi.qualname)
     ev = SymEval(model)
     r = ev.run_function(fi)
-    for n in (model.local_name("utils.apply_window._scan_body"), model.local_name("utils.apply_window._apply_window")):
-        if r.env.get(n, T.NONE)[0] != "closure":
-            raise AnalysisError(f"closure {n} not found in apply_window")
+    c_sb = ev.callable_of(r, "utils.apply_window._scan_body")
+    c_aw = ev.callable_of(r, "utils.apply_window._apply_window")
+    if c_sb is None or c_aw is None:
+        raise AnalysisError("closures _scan_body / _apply_window not found in apply_window")
     f_sb = model.func("utils.apply_window._scan_body")
     f_aw = model.func("utils.apply_window._apply_window")
-    out = ev.invoke(r.env[model.local_name("utils.apply_window._scan_body")], [S("vertex"), S("window"), S("edge")], r.frame)
+    out = ev.invoke(c_sb, [S("vertex"), S("window"), S("edge")], r.frame)
     ok = out[0] == "tuple" and len(out[1]) == 2
     if ok:
         neww, iw = out[1]
@@ -121,7 +122,7 @@ def rule_apply_window(chk: Check, model: Model, rid: str):
         chk.add(rid, "window push (seq_out, ts_end[seq_out], ts_recv)", neww == want_push, f"the window is advanced with {T.show(neww)[:200]}, expected push(edge.seq_out, "
                 "take(sender vertex ts_end, edge.seq_out), edge.ts_recv)", chk.loc(f_sb))
         f = _fields(iw)
-        ok2 = iw[0] == "obj" and iw[1] == "IndexedWindow" and all(f.get(k) == T.mk_attr(neww, k) for k in ("seq", "ts_sent", "ts_recv"))
+        ok2 = iw[0] == "obj" and iw[1].endswith("IndexedWindow") and all(f.get(k) == T.mk_attr(neww, k) for k in ("seq", "ts_sent", "ts_recv"))
         chk.add(rid, "indexed window carries the pushed window", ok2, f"IndexedWindow = {T.show(iw)[:200]}", chk.loc(f_sb))
         want_si = T.mk_ite(T.eq(S("edge.seq_out"), T.const(-1), numeric=True), T.const(-1), S("edge.seq_in"))
         chk.add(rid, "seq_in of an unsent message is -1", T.where_to_ite(f.get("seq_in", T.NONE)) == want_si, f"seq_in = {T.show(f.get('seq_in', T.NONE))[:120]}, expected where(seq_out == -1, -1, seq_in)", chk.loc(f_sb))
@@ -135,7 +136,7 @@ def rule_apply_window(chk: Check, model: Model, rid: str):
     chk.add(rid, "IndexedWindow.to_window", ok, f"to_window returns {T.show(tw)[:160]}", chk.loc(f_tw))
     # _apply_window
     n0 = len(ev.events)
-    ev.invoke(r.env[model.local_name("utils.apply_window._apply_window")], [S("graph")], r.frame)
+    ev.invoke(c_aw, [S("graph")], r.frame)
     sub = ev.events[n0:]
     wins = [e for e in sub if e.kind == "call" and e.name == "new:Window" and e.func == f_aw.qualname]
     if len(wins) == 1:
@@ -320,7 +321,9 @@ def rule_connected(chk: Check, model: Model, rid: str):
                     ok = False
                     detail = f"attachment test is not comparison-only: {ex}"
             # edge goes from the candidate to the supervisor vertex
-            ok = ok and len(a.args) == 2 and a.args[0][0] == "index" and T.const_value(a.args[0][2]) == 0 and any(x[0] == "elem" for x in T.walk(a.args[1]))
+            cand = a.args[0] if a.args else T.NONE
+            first = (cand[0] == "index" and T.const_value(cand[2]) == 0) or (cand[0] == "call" and T.call_name(cand).endswith(".pop") and cand[2] and T.const_value(cand[2][0]) == 0)
+            ok = ok and len(a.args) == 2 and first and any(x[0] == "elem" for x in T.walk(a.args[1]))
     chk.add(rid, "non-ancestor attached iff it ends before the supervisor step starts", ok, detail, chk.loc(fi))
     anc = [e for e in r.events if e.kind == "call" and e.name == "networkx.ancestors"]
     ok = len(anc) == 1 and T.const_value(anc[0].args[1][2]) == -1 if anc and anc[0].args[1][0] == "index" else False
